@@ -182,7 +182,8 @@ Definition qlen (l : list Q) : Q := inject_Z (Z.of_nat (length l)).
 
 (* upstream avg_over_time: incremental mean  mean += v/count - mean/count *)
 Definition mean_step (st : Q * Q) (v : Q) : Q * Q :=
-  let count := snd st + 1 in (fst st + (v / count - fst st / count), count).
+  let count := Qred (snd st + 1) in (Qred (fst st + (v / count - fst st / count)), count).
+(* Qred only normalises the representation (Qred x == x); without it the denominators square at every step *)
 Definition mean_inc (l : list Q) : Q := fst (fold_left mean_step l (0, 0)).
 
 Definition nonempty {A B} (f : list A -> B) (l : list A) : option B :=
